@@ -84,14 +84,18 @@ def gen_layer(rng):
             neg.append(dict(id=cid, name=f"nr{cid}", params=named(ps, f"n{cid}_"), resp=True))
         services.append(dict(id=si + 1, name=f"svc{si + 1}", req=req, pos=pos, neg=neg))
     gnrs = []
-    for _ in range(rng.choice([0, 0, 1, 1, 2])):
+    for _ in range(rng.choice([0, 0, 1, 1, 2, 2, 3])):
         ps = [u8(0x7F)]
         r = rng.random()
         if r < 0.5:
             ps.append(cc.param(None, dict(k="value", dop=cc.simple(cc.std(cc.BUINT, 8)), dflt=None)))
         else:
             ps.append(cc.param(None, dict(k="matchreq", rqpos=0, len=1)))
-        ps.append(cc.param(None, dict(k="value", dop=cc.simple(cc.std(cc.BUINT, 8)), dflt=None)))
+        if rng.random() < 0.4:
+            # restricted to some response codes: it does not apply to every 7F message (later ones may)
+            ps.append(cc.param(None, dict(k="nrc", dct=cc.std(cc.BUINT, 8, None, True), vs=sorted(set(rng.choice([0x11, 0x21, 0x78, 0x31]) for _ in range(2))))))
+        else:
+            ps.append(cc.param(None, dict(k="value", dop=cc.simple(cc.std(cc.BUINT, 8)), dflt=None)))
         cid += 1
         g = dict(id=cid, name=f"gn{cid}", params=named(ps, f"g{cid}_"), resp=True)
         # global negative responses and the negative responses of a service live in different name spaces: a clash of
@@ -334,7 +338,8 @@ def main(argv=None):
                         if rqb:
                             msgs.append((bytes(pdu), rqb))
             for g in L["gnrs"]:
-                msgs.append((bytes([0x7F, rng.choice(SIDS), 0x11]), None))
+                for code in (0x11, 0x21, 0x31, 0x78, 0x10):
+                    msgs.append((bytes([0x7F, rng.choice(SIDS), code]), None))
             base = list(msgs)
             for m, rq in base[:6]:
                 for k in range(len(m)):
